@@ -195,6 +195,14 @@ def main(tier):
     if not ok or ndis != nthm or gate:
         run.violation("proof:Properties_C15", {"what": "Coq development does not build or an obligation is open",
                                                "log_tail": (out if not ok else plog)[-2000:], "grep_gate": gate}, no_input=True)
+    coqchk = None
+    if tier == "thorough" and ok:
+        import re
+        rck, ko = sh("timeout 900 coqchk -silent -o -Q %s A1 A1.Props.Properties_C15" % COQ, timeout=1000)
+        mm = re.search(r"\* Axioms:\s*(.*?)\n\s*\n", ko, flags=re.S)
+        coqchk = {"rc": rck, "axioms": (mm.group(1).strip() if mm else "?")}
+        if rck != 0 or coqchk["axioms"] != "<none>":
+            run.violation("proof:coqchk", {"what": "coqchk rejects the compiled property file or reports axioms", "log_tail": ko[-1500:]}, no_input=True)
     model = model_build()
     # ------------------------------------------------------------ (T) guard table from the sources
     table = json.load(open(os.path.join(HARNESS, "c15_guards.json")))
@@ -336,6 +344,9 @@ def main(tier):
             run.violation("oracle:%s(%s,%s)" % ("nesting" if j["kind"] == "nest" else "heap", tn, syn),
                           dict(replay, what="decoder process died: %s" % r["why"], stderr_tail=r["err"][-1500:], c=r["out"]))
             continue
+        if r["out"].startswith("HEAPCAP"):
+            run.violation("oracle:heap(%s,%s)" % (tn, syn), dict(replay, what="live heap exceeded the meter's 256 MiB cap while decoding %d input bytes (decompression bomb)" % j["n"], c=r["out"]))
+            continue
         o = U.parse_dmeter(r["out"])
         if o is None:
             run.violation("oracle:driver", dict(replay, what="unexpected driver output", c=r["out"]))
@@ -380,7 +391,7 @@ def main(tier):
     return run.finish("proof", (nthm, ndis), trusted_base=tb,
                       checker_cmd="make -C /verif all && coqc -Q coq A1 coq/Props/Properties_C15.v",
                       extra_cov={"theorems": names, "modules": 3, "child_processes": len(jobs), "depths": depths, "caller_max_stack": caller,
-                                 "max_stack_extent_above_limit": max_stk, "heap_bound_tightest": sorted(tight, reverse=True)[:12],
+                                 "coqchk": coqchk, "max_stack_extent_above_limit": max_stk, "heap_bound_tightest": sorted(tight, reverse=True)[:12],
                                  "constants": {"NEST_C": NEST_C, "H": H, "P": P, "ZW": ZW, "STK_SLACK": STK_SLACK, "MIN_FRAME": MIN_FRAME},
                                  "rule": "one case = one child process (type, syntax, input, build, RLIMIT_STACK, max_stack_size) or one guard-table / model line",
                                  "traces_validated_against_impl": run.cov["evaluations"]},
